@@ -172,6 +172,66 @@ func c11InProcScenarios(c *gen.Ctx) (fast, slow []any) {
 		add("random", cc.VerifC11InSpec{Names: c11Names(n), IsRef: c.R.Bool(), Client: cl})
 	}
 
+	// 6. feedback of the reference server, printed through the real printer (internal.NewPrinter /
+	//    PrefixPrintf, as referenceserver.feedbackPrinter does) with the test-case name as prefix:
+	//    names are arbitrary strings — per-cent signs and format verbs, ": " inside, non-ASCII
+	namePool := []string{"100% identity/unary", "%", "%s", "%d%%", "Suite/50%off/unary", "%!v(MISSING)", "%v%v%v",
+		"Süite/ünï/日本", "Suite/a: b/unary", "Suite/plain/unary", "50%", "%%", "%[1]s", "Suite/%q/%x"}
+	fmtPool := []struct {
+		f string
+		n int
+	}{
+		{"client sent another request (#%s) for the same test case", 1},
+		{"invalid value for %s header: %s", 2},
+		{"expected codec %s, got %s", 2},
+		{"compression is 100%% wrong", 0},
+		{"plain message without arguments", 0},
+		{"%s", 1},
+		{"a: b: c %s", 1},
+	}
+	argPool := []string{"json", "X-Expect-Codec", "2", "50%", "%s", "ünï", "a: b"}
+	nFeedback := 120
+	if c.Thorough() {
+		nFeedback = 1500
+	}
+	for i := 0; i < nFeedback; i++ {
+		n := c.R.Range(1, 3)
+		perm := make([]int, len(namePool))
+		for j := range perm {
+			perm[j] = j
+		}
+		for j := len(perm) - 1; j > 0; j-- {
+			k := c.R.Intn(j + 1)
+			perm[j], perm[k] = perm[k], perm[j]
+		}
+		names := make([]string, n)
+		for j := range names {
+			names[j] = namePool[perm[j]]
+		}
+		if i < len(namePool) {
+			names[0] = namePool[i] // every name of the pool at least once, as the only or first case
+			for j := 1; j < n; j++ {
+				if names[j] == names[0] {
+					names[j] = namePool[(i+j)%len(namePool)]
+				}
+			}
+		}
+		var fb []cc.VerifC11InFeedback
+		for k := c.R.Range(1, 4); k > 0; k-- {
+			f := gen.Pick(c.R, fmtPool)
+			args := make([]string, f.n)
+			for a := range args {
+				args[a] = gen.Pick(c.R, argPool)
+			}
+			m := c.R.Intn(n)
+			if c.R.Chance(1, 6) {
+				m = -1 // other output of the server
+			}
+			fb = append(fb, cc.VerifC11InFeedback{M: m, Fmt: f.f, Args: args})
+		}
+		add("feedback", cc.VerifC11InSpec{Names: names, IsRef: true, Client: c11InHandled(0, n, mixed), Feedback: fb})
+	}
+
 	// 5. a slow client: the batch lasts longer than the grace period (5 s) that
 	//    localProcess.result() is willing to wait — the healthy in-process server must neither be
 	//    taken for dead nor be told to stop before the last case was answered
